@@ -46,6 +46,7 @@ func decodeName(data []byte) (Case, bool) {
 	if sel&1 != 0 {
 		c.Format = "par1"
 	}
+	c.MainLast = sel&64 != 0 && c.Format == "par2"
 	switch (sel >> 4) & 3 {
 	case 1:
 		c.Empty = true
